@@ -21,7 +21,7 @@ import (
 )
 
 var verifC18Ops = []string{"newpkg", "constop", "member", "literals", "underscore", "parenexpr", "closure", "zero", "typeast", "builtinmethod", "switch", "labels", "compare", "overload",
-	"anymember", "inlineclosure", "autonames", "rtfile0", "rtfile1", "rtfile2", "rtfile3", "rtfile4", "rtfile5", "rtfile6", "rtfile7", "rtbody"}
+	"anymember", "inlineclosure", "autonames", "units", "timeunits", "generic", "xgoimport", "instantiate", "rtfile0", "rtfile1", "rtfile2", "rtfile3", "rtfile4", "rtfile5", "rtfile6", "rtfile7", "rtbody"}
 
 func verifC18Op(kind string) {
 	pkg := verifNewPkg()
@@ -112,6 +112,62 @@ func verifC18Op(kind string) {
 			body += "{\n" + g.stmtWith(tmpl, 2) + "\n}\n"
 		}
 		verifC18Build(strings.TrimPrefix(verifRTHeader, "package p\n") + "\nfunc body() {\n" + body + "}\n")
+	case "units", "timeunits": // literals with units: 3m of phys.Length, 500ms of time.Duration
+		src, path, tname, unit := "package phys\n\ntype Length int\n\nconst XGou_Length = \"mm=1,cm=10,m=1000\"\n", "example.com/phys", "Length", "m"
+		if kind == "timeunits" {
+			src, path, tname, unit = "package time\n\ntype Duration int64\n", "time", "Duration", "ms"
+		}
+		fset := token.NewFileSet()
+		f, err := parser.ParseFile(fset, "u.go", src, 0)
+		if err != nil {
+			panic(err)
+		}
+		up, err := (&types.Config{}).Check(path, fset, []*ast.File{f}, nil)
+		if err != nil {
+			panic(err)
+		}
+		pkg = NewPackage("", "main", &Config{Importer: verifMapImporter{path: up}, HandleErr: func(err error) { panic(err) }})
+		cb := pkg.NewFunc(nil, "f", nil, nil, false).BodyStart(pkg)
+		cb.ValWithUnit(&ast.BasicLit{Kind: token.INT, Value: "3"}, up.Scope().Lookup(tname).Type(), unit).EndStmt()
+		cb.End()
+	case "generic": // generic calls with inference, explicit and partial instantiation
+		src := verifC07Header + "\nfunc body() {\n_ = Sum(i, 1)\n_ = Map(si, fis)\n_ = Conv[int8](f64)\n_ = Apply(Id, 1)\n_ = First(mi)\n_ = MkList(i8).Get()\n}\n"
+		upkg, file, ok, _, _, _, _ := verifC07Check(src, "body")
+		if !ok {
+			panic("generic workload does not type-check")
+		}
+		pkg = NewPackage("", "p", &Config{Types: upkg, Importer: verifImporter{}, HandleErr: func(err error) { panic(err) }})
+		fe := &verifFE{pkg: pkg, labels: map[string]*Label{}}
+		fe.cb = pkg.NewFunc(nil, "body2", nil, nil, false).BodyStart(pkg)
+		fe.stmts(verifFindFunc(file, "body").Body.List)
+		fe.cb.End()
+		var out bytes.Buffer
+		if err := WriteTo(&out, pkg); err != nil {
+			panic(err)
+		}
+	case "instantiate":
+		upkg, _ := verifUniverse(verifGenericExtra)
+		pkg = NewPackage("", "u", &Config{Types: upkg, Importer: verifImporter{}, HandleErr: func(err error) { panic(err) }})
+		t := pkg.Instantiate(upkg.Scope().Lookup("G2").Type(), []types.Type{types.Typ[types.String], tint})
+		TypeAST(pkg, t)
+		pkg.Zero(t)
+	case "xgoimport": // an imported XGo package with function and method overload families
+		src := "package ovl\n\nconst XGoPackage = true\n\ntype Game struct{}\n\nfunc Put__0(x int) int { return 0 }\nfunc Put__1(x string) int { return 0 }\nfunc (g *Game) RunInt(x int) {}\nfunc (g *Game) Run__1(x string) {}\n\nconst XGoo_Game_Run = \".RunInt,\"\n"
+		fset := token.NewFileSet()
+		f, err := parser.ParseFile(fset, "ovl.go", src, 0)
+		if err != nil {
+			panic(err)
+		}
+		ovl, err := (&types.Config{}).Check("example.com/ovl", fset, []*ast.File{f}, nil)
+		if err != nil {
+			panic(err)
+		}
+		pkg = NewPackage("", "main", &Config{Importer: verifMapImporter{"example.com/ovl": ovl}, HandleErr: func(err error) { panic(err) }})
+		ref := pkg.Import("example.com/ovl")
+		cb := pkg.NewFunc(nil, "f", nil, nil, false).BodyStart(pkg)
+		cb.Val(ref.Ref("Put")).Val("s").Call(1).EndStmt()
+		cb.Val(verifNonConst("g", types.NewPointer(ref.Ref("Game").Type()))).MemberVal("Run", 0).Val("s").Call(1).EndStmt()
+		cb.End()
 	case "overload":
 		sig := types.NewSignatureType(nil, nil, nil, types.NewTuple(types.NewParam(token.NoPos, pkg.Types, "a", tint)), nil, false)
 		f0 := types.NewFunc(token.NoPos, pkg.Types, "f__0", sig)
